@@ -23,8 +23,8 @@ def plan(ctx):
     k = P.per_interp_shards(ctx)
     for v in ctx.producers:
         if ctx.tier == "quick":
-            cases = P.corpus_cases(ctx, v, n_files=90, n_w3=60, modes=8, max_file_bytes=120000)
-            nmodel = 2400
+            cases = P.corpus_cases(ctx, v, n_files=300, n_w3=120, modes=30, max_file_bytes=200000)
+            nmodel = 12000
         else:
             cases = P.corpus_cases(ctx, v, all_files=True, n_w3=1500, modes=200)
             nmodel = 60000
